@@ -90,8 +90,14 @@ def run(ctx: Ctx, env):
             if isinstance(v, Sym) and v.op == "call" and isinstance(v.args[0], RefV) and v.args[0].qual.endswith("infer_type"):
                 arg = v.args[1][0] if v.args[1] else None
                 path = getattr(arg, "path", "")
-                ctx.check(want == "ARG" and path.startswith("args["), "R1.return-type", f"{key}|arg-derived",
-                          f"{full}: type derived from {path or arg!r}; OData says {want}", where, f"{full}(...)")
+                import re as _re
+                m = _re.match(r"args\[(\d+)\]$", path)
+                idx = int(m.group(1)) if m else None
+                allowed = O.ODATA_FUNCTION_RETURN_ARGS.get(full, set())
+                ctx.check(want == "ARG" and idx in allowed, "R1.return-type", f"{key}|arg-derived|{idx}",
+                          f"{full}: type derived from argument {idx if idx is not None else path or arg!r}; in OData the result of {full} has the type of "
+                          f"argument(s) {sorted(allowed) if allowed else 'none (' + str(want) + ')'}", where,
+                          "length(substring(name, 1)) eq 2" if full == "substring" else f"{full}(...)")
                 continue
             ctx.fail("R1.return-type", f"{key}|other", f"infer_return_type({full}) returns {v!r}: neither unknown nor an ast class", where)
         if n_rows % 29 == 0:
